@@ -218,7 +218,7 @@ theorem flush_sim {P : Params} (hP : ParamsOk P) {c : Stack.State} {s : DBM.Stat
         cases hs : s.r with
         | nil => rw [hs] at hlen; simp at hlen; omega
         | cons _ _ => rfl
-      simp only [hz, he, if_false, Bool.false_eq_true]
+      simp only [hz, he, if_false, Bool.false_eq_true, newWriter]
       obtain ⟨calls, hc1, hc2, hc3⟩ := flush_calls h.r.wf
       unfold FitsMem at hf
       rw [hc3] at hf
@@ -245,7 +245,9 @@ theorem flush_w {P : Params} {c c' : Stack.State} (h : Stack.flushStep P c = .ok
       · cases h
       · split at h
         · cases h
-        · cases h; exact ⟨rfl, rfl, rfl, rfl, rfl⟩
+        · split at h
+          · cases h
+          · cases h; exact ⟨rfl, rfl, rfl, rfl, rfl⟩
 
 theorem rotate_sim {P : Params} (hP : ParamsOk P) {c : Stack.State} {s : DBM.State} (h : Rel P c s)
     (hf : FitsMem P c.r) :
